@@ -400,10 +400,10 @@ fn minimise<S: Scenario>(env: Envelope<S::Case>, sig: &str, isolated: bool) -> (
     let mut cur = env;
     let mut detail = String::new();
     let mut execs = 0u64;
-    let budget = if isolated { 400 } else { 20_000 };
+    let budget = if isolated { 80 } else { 20_000 };
     let try_one = |e: &Envelope<S::Case>| -> Option<(String, String)> {
         if isolated {
-            let r = exec_isolated::<S>(e, Duration::from_secs(4));
+            let r = exec_isolated::<S>(e, Duration::from_secs(3));
             r.signature.map(|s| (s, r.detail))
         } else {
             match execute_in_thread::<S>(e, Duration::from_secs(20)) {
@@ -488,7 +488,7 @@ pub fn worker_main<S: Scenario>(args: &[String]) -> i32 {
         }
         probe::set_run(k);
         let env = make_envelope::<S>(seed, tier, k);
-        match execute_in_thread::<S>(&env, Duration::from_secs(20)) {
+        match execute_in_thread::<S>(&env, Duration::from_secs(15)) {
             ThreadResult::Hang => {
                 let mut o = stdout.lock();
                 let _ = writeln!(o, "{}", json!({"type":"hang","k":k}));
@@ -588,7 +588,7 @@ pub fn exec_main<S: Scenario>(args: &[String]) -> i32 {
     };
     warm_up::<S>();
     probe::set_run(0);
-    match execute_in_thread::<S>(&env, Duration::from_secs(25)) {
+    match execute_in_thread::<S>(&env, Duration::from_secs(16)) {
         ThreadResult::Hang => 3,
         ThreadResult::Done(o) => {
             match o.violation {
@@ -716,7 +716,7 @@ fn run_pool<S: Scenario>(tier: Tier, seed: u64, runs: u64, jobs: u64, dir: &str,
                         std::process::exit(2);
                     }
                     let env = make_envelope::<S>(seed, tier, k);
-                    let iso = exec_isolated::<S>(&env, Duration::from_secs(25));
+                    let iso = exec_isolated::<S>(&env, Duration::from_secs(20));
                     if let Some(sig) = iso.signature {
                         let isolated = is_crash_class(&sig);
                         if !crash.iter().any(|c| c.signature == sig) {
@@ -740,7 +740,7 @@ fn run_pool<S: Scenario>(tier: Tier, seed: u64, runs: u64, jobs: u64, dir: &str,
                     }
                     outs.push(o);
                     start = k + jobs;
-                    if start >= runs || died > 50 {
+                    if start >= runs || died > 8 {
                         break;
                     }
                 }
